@@ -171,3 +171,28 @@ T("C19", "twin-info-helper", F, "", "",
           "    @staticmethod\n    def _info_bytes(computer: str, user: str, process: str) -> bytes:\n        return f\"{computer}\\t{user}\\t{process}\".encode()[:51]\n\n    def get_sleep_time(self) -> float:\n"),
          (F, "        info = f\"{self.computer}\\t{self.user}\\t{self.process}\"\n\n        # info cannot be larger than 51 bytes, truncate it to be sure.\n        info_bytes = info.encode()[:51]\n",
           "        info_bytes = self._info_bytes(self.computer, self.user, self.process)\n")])
+
+# ---------------------------------------------------------------------------------------------- more spellings of the same kinds
+T("C19", "twin-id-range-power", F, ID_C, "        if self.beacon_id >= 2**31:\n            raise ValueError(\"beacon_id must be less or equal than 2147483647\")\n")
+T("C19", "twin-id-range-in-range", F, ID_C, "        if self.beacon_id not in range(0x80000000):\n            raise ValueError(\"beacon_id must be less or equal than 2147483647\")\n")
+T("C19", "twin-id-range-high-bit", F, ID_C, "        if self.beacon_id >> 31:\n            raise ValueError(\"beacon_id must be less or equal than 2147483647\")\n")
+T("C19", "twin-id-range-sign-bit-mask", F, ID_C, "        if self.beacon_id & 0x80000000:\n            raise ValueError(\"beacon_id must be less or equal than 2147483647\")\n")
+M("C19", "id-range-power-off-by-one", F, ID_C, "        if self.beacon_id >= 2**32:\n            raise ValueError(\"beacon_id must be less or equal than 2147483647\")\n", "C19.R3")
+M("C19", "id-range-high-bit-wrong-shift", F, ID_C, "        if self.beacon_id >> 32:\n            raise ValueError(\"beacon_id must be less or equal than 2147483647\")\n", "C19.R3")
+T("C19", "twin-catch-all-class-constant", F, "", "",
+  edits=[(F, "    def get_handlers(self, command_id: Union[int, None]) -> List[Callable]:\n", "    CATCH_ALL = -1\n\n    def get_handlers(self, command_id: Union[int, None]) -> List[Callable]:\n"),
+         (F, "            handlers = list(self.task_map.get(-1, []))\n", "            handlers = list(self.task_map.get(self.CATCH_ALL, []))\n"),
+         (F, "            self.register_task(-1, func)\n", "            self.register_task(self.CATCH_ALL, func)\n")])
+T("C19", "twin-on-catch-all-hasattr", F, "            on_catch_all = getattr(self, \"on_catch_all\", None)\n            if on_catch_all:\n                handlers.append(on_catch_all)\n",
+  "            if hasattr(self, \"on_catch_all\") and self.on_catch_all:\n                handlers.append(self.on_catch_all)\n")
+T("C19", "twin-loop-filter-callable", F, "            for handler in handlers:\n                if callable(handler):\n", "            for handler in filter(callable, handlers):\n                if True:\n")
+T("C19", "twin-loop-keyword-task", F, "                        response = handler(task)\n", "                        response = handler(task=task)\n")
+M("C19", "dispatch-chain-twice", F, "            for handler in handlers:\n", "            for handler in [*handlers, *handlers]:\n", "C19.R2")
+T("C19", "twin-seed-mask-class-constant", F, "", "",
+  edits=[(F, "    def get_sleep_time(self) -> float:\n", "    AES_RAND_SEED_MASK = 0xACCE55ED\n\n    def get_sleep_time(self) -> float:\n"),
+         (F, SEED, "        random.seed(self.beacon_id ^ self.AES_RAND_SEED_MASK)\n")])
+M("C19", "seed-local-rebound-before-seed", F, "", "", "C19.R4",
+  edits=[(F, ID_A + ID_B + ID_C,
+          "        if beacon_id is None:\n            beacon_id = random.getrandbits(32) & 0x7FFFFFFF\n        bid = beacon_id\n        beacon_id = (bid - bid % 2) & 0xFFFFFFFF\n"
+          "        if beacon_id > 0x7FFFFFFF:\n            raise ValueError(\"beacon_id must be less or equal than 2147483647\")\n        self.beacon_id = beacon_id\n        beacon_id = bid\n"),
+         (F, SEED, "        random.seed(beacon_id ^ 0xACCE55ED)\n")])
